@@ -1,5 +1,6 @@
 import EmmetProofs.MergeAbstract
 import EmmetProofs.MergeModel
+import EmmetProofs.AttrRender
 /-! # C03 — attribute merging is "group by name, first mention keeps its place" (abstract attribute type)
 
 For ANY attribute type `A` with a name projection `key : A → Option K` (`none` = no name / empty name) and ANY merge function
@@ -42,5 +43,22 @@ theorem C03_class_words (x : T.Str) (ys : List T.Str) :
 example : (T.mergeAttributes {} [⟨some (T.lit "class"), some [.str (T.lit "a")], .raw, false, false, false⟩, ⟨some (T.lit "t"), some [.str (T.lit "1")], .raw, false, false, false⟩,
       ⟨some (T.lit "class"), some [.str (T.lit "b")], .raw, false, false, false⟩, ⟨some (T.lit "t"), some [.str (T.lit "2")], .raw, false, false, false⟩]).map (fun a => match a.value with | some [.str s] => s | _ => [])
     = [T.lit "a b", T.lit "2"] := by decide +kernel
+
+/-- rendering of one attribute, for EVERY option set without a name map / value prefix (html, xml, xsl …) and every attribute with a
+name: the name in the configured case; the value verbatim between the configured quotes (braces for an expression); a boolean attribute
+(`name.` or listed in output.booleanAttributes, any letter case) without value gets its own name as value, or stays bare in the compact
+form; any other attribute without value gets an empty value (a tabstop) -/
+theorem C03_attribute_rendering (op : T.Options) (a : T.AAttr) (n0 : T.Ch) (ns : T.Str) (hn : a.name = some (n0 :: ns))
+    (hm : op.markupAttributes = []) (hp : op.valuePrefix = []) :
+    T.attrParts op a = some (T.attrNameCase op (n0 :: ns),
+      (if (a.boolean || op.booleanAttributes.contains (T.lower (n0 :: ns))) && !T.valTruthy a.value then
+          (if !op.compactBoolean then some [.str (T.attrNameCase op (n0 :: ns))] else a.value)
+        else if !T.valTruthy a.value then some T.caret else a.value),
+      (T.quotesOf op a).1, (T.quotesOf op a).2) := T.attrParts_plain op a n0 ns hn hm hp
+
+/-- implied attributes (`!name`) without value are dropped — and only those -/
+theorem C03_implied_dropped (a : T.AAttr) :
+    T.shouldOutputAttribute a = false ↔ (a.implied = true ∧ a.valueType = .raw ∧ T.valTruthy a.value = false) :=
+  T.shouldOutput_spec a
 
 end EmmetProps
